@@ -1,6 +1,8 @@
 """C05 — imzML mass-window extraction: pewlib.io.imzml.ImzML.extract_masses / extract_tic / mass_range /
-binned_masses on synthetic imzML/ibd pairs against PewModel/Imzml.lean (mechanism: searchsorted ->
-sentinel -> reduceat -> [::2] -> zeroing; specification: windowSum per pixel)."""
+binned_masses on synthetic imzML/ibd pairs against PewModel/Imzml.lean (mechanism: get_binary_data on the
+bytes of the .ibd -> dict of spectra -> searchsorted -> sentinel -> reduceat -> [::2] -> zeroing -> placement by
+NumPy subscripts; specification: windowSum per pixel at [y-1][x-1]).  The driver gets the bytes of the .ibd file
+the harness wrote plus the offsets / lengths it wrote into the imzML and decodes the arrays itself."""
 import json
 import math
 import sys
@@ -97,6 +99,8 @@ def tables_close(a, b, tol_of):
             if len(va) != len(vb):
                 return False
             tol = tol_of(r, c)
+            if tol is None:  # only the NaN pattern of this pixel is compared
+                continue
             for x, y in zip(va, vb):
                 if x is None or y is None:
                     if x is not y:
@@ -104,6 +108,18 @@ def tables_close(a, b, tol_of):
                 elif x != y and abs(F(x) - F(y)) > tol:
                     return False
     return True
+
+
+def both_raise(impl_part, model_part):
+    """the model says the call raises and the implementation raised (the exception class is not compared)"""
+    return isinstance(model_part, dict) and model_part.get("raises") is True and isinstance(impl_part, dict) and "raises" in impl_part
+
+
+def same_pattern(a, b):
+    """same shape and the same NaN pixels"""
+    if isinstance(a, dict) or isinstance(b, dict) or len(a) != len(b):
+        return False
+    return all(len(ra) == len(rb) and all((pa is None) == (pb is None) for pa, pb in zip(ra, rb)) for ra, rb in zip(a, b))
 
 
 class C05(Prop):
@@ -119,17 +135,35 @@ class C05(Prop):
             "a 32-bit-edge class (20% of the exact stream): decimal masses 100..1000 with absolute widths 0.05..3.3 or 10..5000 ppm, "
             "mostly f32 m/z, integer intensities, peaks on float32(e) and its float32 neighbours for the edges e = m -/+ w/2 that are "
             "not float32 values (peak just below/above the lower/upper edge, one float32 step >= 6e-8 relative away); "
-            "bins with dyadic widths incl. spectra with a peak in every bin. non-trivial = at least one of the named window "
-            "classes or a sparse/size-absent image; distinct by canonical case hash")
-    trusted = ["np.searchsorted on a sorted array returns #{p | a[p] < v}; np.add.reduceat, np.append, np.frombuffer, np.arange as documented",
+            "bins with dyadic widths incl. spectra with a peak in every bin. "
+            "70% of the cases carry 1-3 direct calls of Spectrum.get_binary_data on the written .ibd (the arrays the imzML points to and "
+            "random offsets / lengths, element types u1..u8 / f4 / f8, both byte orders, reads ending after or starting beyond the file, "
+            "lengths that are no whole number of elements). 8% of the cases are moved OUTSIDE the quantifier (position 0, negative, "
+            "beyond the size, recorded twice, two positions on one pixel, smaller / empty / negative size, nothing at all): "
+            "implementation vs model only, the specification is not evaluated. "
+            "non-trivial = at least one of the named window classes, a sparse/size-absent image or an off: class; distinct by canonical case hash")
+    trusted = ["np.searchsorted on a sorted array returns #{p | a[p] < v}; np.add.reduceat, np.append, np.arange as documented; "
+               "np.frombuffer / file seek+read and IEEE-754 decoding are MODELLED (getBinaryData, ieeeVal) and compared element by element "
+               "(bit patterns and exact values) with what get_binary_data returns on the written file",
                "exact stream: m/z k/2^14 < 256 and integer intensities < 2^11 so float32/float64 sums and the float window edges "
                "of absolute widths are exact; 32-bit-edge class: m/z < 1024 stored as float32, integer intensities < 2^11, sums exact; "
                "ppm widths, the real stream and every absolute width whose float64 edges m -/+ w/2 are not exact: cases with a peak "
                "within 1e-9 relative of a window edge are undetermined; real stream: sums compared with tolerance 8*n*eps*total",
-               "xml.etree.ElementTree parses the synthetic document as written; float(text) of the stored TIC"]
-    assumptions = ["positions are 1-based and inside the stated image size; spectra are non-empty with strictly increasing m/z",
+               "xml.etree.ElementTree parses the synthetic document as written (position, size, offset, encoded length, element type); "
+               "float(text) of the stored TIC (the harness hands the model the parsed value)"]
+    assumptions = ["the specification is evaluated only where the quantifier holds: every position recorded once, 1-based and inside the "
+                   "image; spectra non-empty with strictly increasing m/z and as many intensities (decided by the driver, `hyp`); outside it "
+                   "the implementation is compared with the mechanism model only (raising vs not raising, shape, NaN pattern, values; the "
+                   "exception class and the value of a pixel two positions share are not compared)",
                    "mass_range is checked as a bound (low <= every m/z <= high); bin edges returned by binned_masses are accepted when they "
                    "step by the requested width and cover the recorded range, the per-bin sums are then checked against those edges"]
+
+    # Outside the property's quantifier (position 0 / negative / beyond the size / recorded twice, empty or negative
+    # sizes, reads that end after the file or are no whole number of elements) the property says nothing; there the
+    # implementation is compared with the MODEL only.  True: such a disagreement reaches the verdict ("VIOLATION ...
+    # no-failing-input-found": the model no longer describes the code).  False: it is only counted as the feature
+    # "off:DIFFERS-from-model" in the evidence.
+    OFF_DOMAIN_VERDICT = True
 
     # ------------------------------------------------------------------ generation
     def gen_tic(self, rng, total):
@@ -148,6 +182,106 @@ class C05(Prop):
         return repr(float(v))
 
     def generate(self, rng, tier):
+        case = self.generate_main(rng, tier)
+        # everything below draws AFTER the main case, so the main stream is what it was
+        if case["spectra"] and rng.random() < 0.7:
+            case["reads"] = self.gen_reads(rng, case)
+        if rng.random() < 0.08:
+            self.off_domain(rng, case)
+        return case
+
+    DTYPES = ["u1", "u2", "u4", "u8", "f4", "f8"]
+
+    def gen_reads(self, rng, case):
+        """offsets / lengths / dtypes for direct calls of Spectrum.get_binary_data on the .ibd of the case"""
+        import random
+        prng = random.Random(case["pad"]) if case["pad"] is not None else None
+        ibd, metas = gen_imzml.layout_ibd(case["spectra"], case["mzdt"], case["itdt"], shared=case["shared"], rng=prng,
+                                          intensity_first=case["ifirst"])
+        L = len(ibd)
+        out = []
+        for _ in range(rng.choice([1, 1, 2, 3])):
+            k = rng.random()
+            dt = rng.choice(self.DTYPES)
+            if k < 0.35:  # one of the arrays the imzML points to, with its own or another element type
+                m = rng.choice(metas)
+                which = rng.choice(["mz", "it"])
+                off, ln = m[which][0], m[which][1]
+                if rng.random() < 0.6:
+                    dt = case["mzdt"] if which == "mz" else case["itdt"]
+            elif k < 0.6:  # anywhere inside the file
+                off = rng.randint(0, L)
+                ln = rng.randint(0, L - off)
+                if rng.random() < 0.5:
+                    ln -= ln % int(dt[1:])
+            elif k < 0.85:  # across the end of the file: read() returns fewer bytes
+                off = rng.randint(max(0, L - 12), L)
+                ln = (L - off) + rng.randint(1, 16)
+            else:  # at or beyond the end: nothing to read
+                off = L + rng.randint(0, 8)
+                ln = rng.choice([0, 4, 8, 7])
+            past = "empty-read" if ln == 0 else "beyond-end" if off >= L else "across-end" if off + ln > L else None
+            out.append({"off": off, "len": ln, "dt": dt, "order": "big" if rng.random() < 0.2 else "little", "past": past})
+        return out
+
+    def off_domain(self, rng, case):
+        """positions / sizes outside the property's quantifier (impl vs model only): position 0 (NumPy subscript -1:
+        last row / column), negative positions, positions beyond the stated size (IndexError), a position recorded
+        twice (dict: last value, first place), two positions on one pixel, empty and negative sizes, nothing at all"""
+        sp = case["spectra"]
+        kinds = ["size-small", "size-zero", "size-neg"] if case["size"] is not None else []
+        if sp:
+            kinds += ["zero-x", "zero-y", "zero-x", "negative", "negative", "beyond", "nothing"]
+        if len(sp) >= 2:
+            kinds += ["dup", "dup", "alias", "alias"]
+        if not kinds:
+            return
+        k = rng.choice(kinds)
+        X = case["size"][0] if case["size"] is not None else max(s["x"] for s in sp)
+        Y = case["size"][1] if case["size"] is not None else max(s["y"] for s in sp)
+        if k in ("dup", "alias"):
+            # two distinct spectra are needed to see which one is kept: never a shared description
+            case["shared"] = case["shared"] and all(s["mz"] == sp[0]["mz"] for s in sp)
+        if k == "zero-x":
+            rng.choice(sp)["x"] = 0
+        elif k == "zero-y":
+            rng.choice(sp)["y"] = 0
+        elif k == "negative":
+            t = rng.choice(sp)
+            if rng.random() < 0.5:
+                t["x"] = -rng.randint(1, X + 1)
+            else:
+                t["y"] = -rng.randint(1, Y + 1)
+        elif k == "beyond":
+            t = rng.choice(sp)
+            if rng.random() < 0.5:
+                t["x"] = X + rng.randint(1, 2)
+            else:
+                t["y"] = Y + rng.randint(1, 2)
+        elif k == "dup":
+            i, j = rng.sample(range(len(sp)), 2)
+            sp[j]["x"], sp[j]["y"] = sp[i]["x"], sp[i]["y"]
+        elif k == "alias":
+            i, j = rng.sample(range(len(sp)), 2)
+            if rng.random() < 0.5:
+                sp[i]["x"], sp[j]["x"], sp[j]["y"] = 0, X, sp[i]["y"]
+            else:
+                sp[i]["y"], sp[j]["y"], sp[j]["x"] = 0, Y, sp[i]["x"]
+            if len(sp) >= 3 and rng.random() < 0.6:  # and the first position once more: the dict keeps its place
+                l = next(n for n in range(len(sp)) if n not in (i, j))
+                sp[l]["x"], sp[l]["y"] = sp[min(i, j)]["x"], sp[min(i, j)]["y"]
+        elif k == "size-small":
+            case["size"] = [max(0, X - rng.randint(0, 1)), max(0, Y - rng.randint(0, 1))]
+            if case["size"] == [X, Y]:
+                case["size"] = [max(0, X - 1), Y]
+        elif k == "size-zero":
+            case["size"] = rng.choice([[0, Y], [X, 0], [0, 0]])
+        elif k == "size-neg":
+            case["size"] = rng.choice([[-1, Y], [X, -2]])
+        elif k == "nothing":
+            case["spectra"], case["size"], case["binw"], case["reads"] = [], None, case["binw"], []
+
+    def generate_main(self, rng, tier):
         real = rng.random() < 0.15
         if not real and rng.random() < 0.2:
             return self.generate_f32edge(rng)
@@ -361,6 +495,25 @@ class C05(Prop):
                    "masses": [m], "width": width}
         # no spectrum at all
         yield {**base, "size": [2, 1], "spectra": [], "masses": [101.0], "width": {"kind": "mz", "value": 1.0}}
+        # ---- outside the quantifier, implementation vs model only: positions as NumPy subscripts, the dict of spectra
+        w1 = {"masses": [100.0, 250.0], "width": {"kind": "mz", "value": 2.0}}
+        a, b, c = ({**sp, "it": [float(k), 2.0, 4.0, 8.0], "tic": None} for k in (1, 16, 32))
+        for size, pos in (([2, 2], [(0, 1)]), ([2, 2], [(1, 0)]), ([2, 2], [(3, 1)]), ([2, 2], [(1, 3)]), ([2, 2], [(-1, 1)]),
+                          ([2, 2], [(-2, 1)]), ([2, 2], [(-1, -1)]), ([2, 2], [(0, 1), (2, 1)]), ([2, 2], [(2, 1), (0, 1)]),
+                          ([2, 2], [(0, 1), (2, 1), (0, 1)]), ([1, 1], [(1, 1), (1, 1)]), ([2, 1], [(1, 1), (2, 1), (1, 1)]),
+                          (None, [(0, 1), (2, 1)]), (None, [(0, 0)]), (None, [(-1, 1)]), (None, []), ([0, 1], [(1, 1)]),
+                          ([-1, 1], [(1, 1)]), ([1, 1], [(2, 1)]), ([0, 0], [])):
+            yield {**base, **w1, "size": size, "binw": 64.0,
+                   "spectra": [{**t, "x": x, "y": y} for t, (x, y) in zip((a, b, c), pos)]}
+        # ---- the external binary, directly: whole arrays, every element type, both byte orders, reads that end after
+        # the file, start beyond it, and lengths that are no whole number of elements (16 bytes UUID + 32 + 16 bytes)
+        rd = lambda off, ln, dt, order="little", past=None: {"off": off, "len": ln, "dt": dt, "order": order, "past": past}
+        yield {**base, **w1, "spectra": [sp],
+               "reads": [rd(16, 32, "f8"), rd(48, 16, "f4"), rd(16, 32, "f8", "big"), rd(48, 16, "f4", "big"), rd(16, 32, "u8"),
+                         rd(48, 16, "u4"), rd(17, 6, "u2"), rd(19, 5, "u1"), rd(48, 16, "u2", "big")]}
+        yield {**base, **w1, "spectra": [sp],
+               "reads": [rd(56, 16, "f4", past="across-end"), rd(60, 8, "f8", past="across-end"), rd(64, 8, "f4", past="beyond-end"),
+                         rd(70, 0, "f8", past="empty-read"), rd(16, 31, "f8"), rd(16, 30, "f4"), rd(0, 64, "u8"), rd(61, 9, "u2", past="across-end")]}
 
     # ------------------------------------------------------------------ evaluation
     def evaluate(self, case, ctx):
@@ -391,46 +544,71 @@ class C05(Prop):
             impl["extract"] = r if isinstance(r, dict) else canon_pixels(r)
             r = call(imz.extract_tic)
             impl["tic"] = r if isinstance(r, dict) else canon_pixels(r)
+            r = call(imz.mass_range)
+            impl["range"] = r if isinstance(r, dict) else [fr(r[0]), fr(r[1])]
+            if case["binw"] is not None:
+                r = call(lambda: imz.binned_masses(case["binw"]))
+                if isinstance(r, dict):
+                    impl["binned"] = r
+                else:
+                    b = np.asarray(r[0], dtype=float)
+                    if b.ndim == 1 and np.all(np.isfinite(b)):
+                        impl_bins = [F(float(v)) for v in b]
+                    impl["binned"] = {"bins": [fr(v) for v in b.ravel()], "data": canon_pixels(r[1])}
+            dct = self.observe_dict(imz)
+            if dct is not None:
+                impl["dict"] = dct
+        reads = self.run_reads(case, path, ibd)
+        if reads is not None:
+            impl["reads"] = reads[0]
+
+        # the same file, abstractly, for the model: the bytes of the .ibd as written, and per <spectrum> what was
+        # written into the imzML (position, TIC text as the float it parses to, offset and encoded length of the arrays)
+        fspecs = [{"x": s["x"], "y": s["y"], "tic": None if s["tic"] is None else core.rat(F(float(s["tic"]))),
+                   "mz": [m["mz"][0], m["mz"][1]], "it": [m["it"][0], m["it"][1]]} for s, m in zip(specs, metas)]
+        ffile = dict(size=case["size"], ibd=ibd.hex(), mzdt=case["mzdt"], itdt=case["itdt"], spectra=fspecs)
+        rep = ctx.driver.call("c05.image", masses=[core.rat(F(m)) for m in masses],
+                              width={"kind": width["kind"], "value": core.rat(F(width["value"]))}, **ffile)
+        hyp = bool(rep["hyp"])
+        dspecs = rep["values"]  # the arrays as the model decoded them from the bytes
+
+        def mimg(j, vec):
+            return {"raises": True} if j is None else drv_table(j["table"], vec)
+
+        def mrange(j):
+            return {"raises": True} if j is None else [("inf", "-inf")[i] if v is None else qs(v) for i, v in enumerate(j)]
+
+        model = {"extract": mimg(rep["extract_model"], True), "tic": mimg(rep["tic_model"], False),
+                 "range": mrange(rep["range_model"]),
+                 "dict": [[int(s["x"]), int(s["y"]), [qs(v) for v in s["mz"]], [qs(v) for v in s["it"]]] for s in rep["dict"]]}
+        if reads is not None:
+            model["reads"] = reads[1](ctx)
+        spec = {"outside-the-quantifier": True}
+        if hyp:
+            spec = {"extract": drv_table(rep["extract_spec"], True), "tic": drv_table(rep["tic_spec"], False)}
             if specs:
-                r = call(imz.mass_range)
-                impl["range"] = r if isinstance(r, dict) else [fr(r[0]), fr(r[1])]
-                if case["binw"] is not None:
-                    r = call(lambda: imz.binned_masses(case["binw"]))
-                    if isinstance(r, dict):
-                        impl["binned"] = r
-                    else:
-                        b = np.asarray(r[0], dtype=float)
-                        if b.ndim == 1 and np.all(np.isfinite(b)):
-                            impl_bins = [F(float(v)) for v in b]
-                        impl["binned"] = {"bins": [fr(v) for v in b.ravel()], "data": canon_pixels(r[1])}
-
-        # the same case, abstractly, for the model (values exactly as stored in the file)
-        def stored(vals, dt):
-            return [core.rat(F(float(v))) for v in np.asarray(vals, dtype=gen_imzml.NP_DTYPE[dt])]
-
-        dspecs = [{"x": s["x"], "y": s["y"], "tic": None if s["tic"] is None else core.rat(F(float(s["tic"]))),
-                   "mz": stored(s["mz"], case["mzdt"]), "it": stored(s["it"], case["itdt"])} for s in specs]
-        rep = ctx.driver.call("c05.image", size=case["size"], spectra=dspecs, masses=[core.rat(F(m)) for m in masses],
-                              width={"kind": width["kind"], "value": core.rat(F(width["value"]))})
-        model = {"extract": drv_table(rep["extract_model"], True), "tic": drv_table(rep["tic_model"], False)}
-        spec = {"extract": drv_table(rep["extract_spec"], True), "tic": drv_table(rep["tic_spec"], False)}
-        if specs:
-            model["range"] = [qs(v) for v in rep["range_model"]]
-            spec["range"] = [qs(v) for v in rep["range_spec"]]
+                spec["range"] = [qs(v) for v in rep["range_spec"]]
         brep = None
-        if specs and case["binw"] is not None:
-            brep = ctx.driver.call("c05.bins", size=case["size"], spectra=dspecs, w=core.rat(F(case["binw"])),
-                                   impl_bins=None if impl_bins is None else [core.rat(v) for v in impl_bins])
-            model["binned"] = {"bins": [qs(v) for v in brep["bins_model"]], "data": drv_table(brep["model"], True)}
-            spec["binned"] = {"edges_step_by_w_and_cover_range": True, "returned_edges_do": bool(brep["cover"]),
-                              "data": drv_table(brep["spec"], True)}
+        if case["binw"] is not None:
+            brep = ctx.driver.call("c05.bins", w=core.rat(F(case["binw"])),
+                                   impl_bins=None if impl_bins is None else [core.rat(v) for v in impl_bins], **ffile)
+            bm = brep["model"]
+            model["binned"] = {"raises": True} if bm is None else {"bins": [qs(v) for v in bm["bins"]], "data": drv_table(bm["table"], True)}
+            if hyp and specs:
+                spec["binned"] = {"edges_step_by_w_and_cover_range": True, "returned_edges_do": bool(brep["cover"]),
+                                  "data": drv_table(brep["spec"], True)}
 
         # tolerances: exact stream 0; real stream 8*n*eps*total of the pixel
         totals = {}
         for s in specs:
             eps = 2.0 ** -23 if case["itdt"] == "f4" else 2.0 ** -52
             totals[(s["y"] - 1, s["x"] - 1)] = F(8 * max(1, len(s["it"])) * eps * sum(s["it"])) if case["kind"] == "real" else F(0)
-        tol = lambda r, c: totals.get((r, c), F(0))
+        big = max(totals.values(), default=F(0))
+        # outside the quantifier two dict values can be written to one pixel (positions 0 and X): which one stays depends
+        # on the order of the loop, which the property does not fix: only the NaN-ness of such a pixel is compared
+        ali = rep["aliased"] or []
+        is_ali = lambda r, c: r < len(ali) and c < len(ali[r]) and bool(ali[r][c])
+        tol = (lambda r, c: totals.get((r, c), F(0))) if hyp else (lambda r, c: None if is_ali(r, c) else big)
         # the summed TIC of a pixel whose exact total is not representable in the intensity type is rounding-determined
         # for ANY implementation (a dominant peak next to small ones): tolerance for the TIC table only
         tic_totals = dict(totals)
@@ -439,24 +617,41 @@ class C05(Prop):
             if s["tic"] is None and sum(s["it"]) >= lim:
                 eps = 2.0 ** -23 if case["itdt"] == "f4" else 2.0 ** -52
                 tic_totals[(s["y"] - 1, s["x"] - 1)] = F(8 * max(1, len(s["it"])) * eps * sum(s["it"]))
-        tol_tic = lambda r, c: tic_totals.get((r, c), F(0))
+        bigt = max(tic_totals.values(), default=F(0))
+        tol_tic = (lambda r, c: tic_totals.get((r, c), F(0))) if hyp else (lambda r, c: None if is_ali(r, c) else bigt)
         parts_spec, parts_model = {}, {}
         if imz is None:
             parts_spec["parse"] = parts_model["parse"] = False
         else:
             for k in ("extract", "tic"):
-                parts_spec[k] = tables_close(impl[k], spec[k], tol if k == "extract" else tol_tic)
-                parts_model[k] = tables_close(impl[k], model[k], tol if k == "extract" else tol_tic)
-            if specs:
-                ir = impl["range"]
+                t = tol if k == "extract" else tol_tic
+                if hyp:
+                    parts_spec[k] = tables_close(impl[k], spec[k], t)
+                parts_model[k] = both_raise(impl[k], model[k]) or tables_close(impl[k], model[k], t)
+            ir = impl["range"]
+            if hyp and specs:
                 ok = isinstance(ir, list) and None not in ir
                 parts_spec["range"] = ok and self.le(ir[0], spec["range"][0]) and self.le(spec["range"][1], ir[1])
-                parts_model["range"] = ir == model["range"]
+            parts_model["range"] = both_raise(ir, model["range"]) or ir == model["range"]
             if brep is not None:
-                ib = impl["binned"]
-                parts_spec["binned"] = "data" in ib and bool(brep["cover"]) and tables_close(ib["data"], spec["binned"]["data"], tol)
-                parts_model["binned"] = "data" in ib and ib["bins"] == model["binned"]["bins"] \
-                    and self.binned_matches_model(ib["data"], model["binned"]["data"], spec["binned"]["data"], brep["dense"], tol)
+                ib, mb = impl["binned"], model["binned"]
+                if hyp and specs:
+                    parts_spec["binned"] = "data" in ib and bool(brep["cover"]) and tables_close(ib["data"], spec["binned"]["data"], tol)
+                    parts_model["binned"] = "data" in ib and "data" in mb and ib["bins"] == mb["bins"] \
+                        and self.binned_matches_model(ib["data"], mb["data"], spec["binned"]["data"], brep["dense"], tol)
+                else:
+                    # outside the quantifier (and for a file without spectra) only raising, the edges, the shape and the
+                    # NaN pattern are compared: the values of binned_masses are covered by the known finding, a repair
+                    # of it must not break the tie here
+                    parts_model["binned"] = both_raise(ib, mb) or ("data" in ib and "data" in mb and ib["bins"] == mb["bins"]
+                                                                  and same_pattern(ib["data"], mb["data"]))
+            if "dict" in impl:
+                parts_model["dict"] = impl["dict"] == model["dict"]
+        if reads is not None:
+            inq = [r["off"] + r["len"] <= len(ibd) and r["len"] % int(r["dt"][1:]) == 0 for r in case["reads"]]
+            pairs = list(zip(inq, impl["reads"], model["reads"]))
+            parts_model["reads"] = all(i == m for q, i, m in pairs if q)          # arrays inside the file: always
+            parts_model["reads-off"] = all(i == m for q, i, m in pairs if not q)  # short / misaligned reads: off-domain
 
         # undetermined: a peak within 1e-9 relative of a window edge whose float value depends on how the code
         # rounds (real stream; every ppm width: m*ppm/1e6/2 and e.g. m*(ppm*5e-7) are both right but round differently)
@@ -476,23 +671,96 @@ class C05(Prop):
                     if any(abs(q - e) <= F(1, 10 ** 9) * abs(e) for e in edges):
                         undet = True
 
-        note = {"fail": sorted(k for k, v in parts_spec.items() if not v)}
+        note = {"fail": sorted(k for k, v in parts_spec.items() if not v),
+                "model_fail": sorted(k for k, v in parts_model.items() if not v)}
         if brep is not None and imz is not None and "data" in impl.get("binned", {}) and not parts_spec.get("binned", True):
             # which disagreeing pixels lie in the class of the known finding (a bin without a peak / bins above the last peak)
             bad_dense = 0
-            idata, sdata = impl["binned"]["data"], spec["binned"]["data"]
+            ib = impl["binned"]
+            idata, sdata = ib["data"], spec["binned"]["data"]
             same_shape = len(idata) == len(sdata) and all(len(a) == len(b) for a, b in zip(idata, sdata))
             if same_shape:
                 for r, row in enumerate(idata):
                     for c, px in enumerate(row):
                         if not tables_close([[px]], [[sdata[r][c]]], lambda *_: tol(r, c)) and brep["dense"][r][c] is not False:
                             bad_dense += 1
+            mb = model["binned"]
             note["binned"] = {"cover": bool(brep["cover"]), "same_shape": same_shape, "bad_dense_pixels": bad_dense,
-                              "matches_defect_model": ib["bins"] == model["binned"]["bins"]
-                              and tables_close(ib["data"], model["binned"]["data"], tol)}
-        feats = self.features(case, rep, brep, dspecs)
+                              "matches_defect_model": "data" in mb and ib["bins"] == mb["bins"]
+                              and tables_close(ib["data"], mb["data"], tol)}
+        feats = self.features(case, rep, brep, dspecs, hyp, reads is not None, "dict" in impl)
+        if not self.OFF_DOMAIN_VERDICT:
+            # disagreements outside the quantifier are only counted (feature), they do not reach the verdict
+            offp = [k for k in parts_model if k == "reads-off" or (not hyp and k not in ("reads", "parse"))]
+            if any(not parts_model[k] for k in offp) and feats:
+                feats = list(feats) + ["off:DIFFERS-from-model"]
+            for k in offp:
+                parts_model[k] = True
         return outcome(impl, model, spec, spec_ok=all(parts_spec.values()), model_ok=all(parts_model.values()),
-                       undetermined=undet, hyp=bool(rep["hyp"]), features=feats, note=json.dumps(note, sort_keys=True))
+                       undetermined=undet, hyp=hyp, features=feats, note=json.dumps(note, sort_keys=True))
+
+    # ------------------------------------------------------------------ the external binary, directly
+    @staticmethod
+    def observe_dict(imz):
+        """ImzML.spectra in iteration order with the arrays get_binary_data reads for each value; None when the
+        attributes are not there (a restructured class is not an error of the property)"""
+        try:
+            out = []
+            for sp in imz.spectra.values():
+                mz = sp.get_binary_data(imz.mz_params.id, imz.mz_params.dtype, imz.external_binary)
+                it = sp.get_binary_data(imz.intensity_params.id, imz.intensity_params.dtype, imz.external_binary)
+                out.append([int(sp.x), int(sp.y), [fr(v) for v in mz], [fr(v) for v in it]])
+            return out
+        except (AttributeError, TypeError, KeyError):
+            return None
+        except Exception as e:  # the read itself fails: an observation, not an error of the harness
+            return {"raises": type(e).__name__}
+
+    @staticmethod
+    def run_reads(case, path, ibd):
+        """Spectrum.get_binary_data on the real .ibd for the offsets / lengths / dtypes of the case (inside the file,
+        across its end, beyond it, lengths that are no multiple of the element width, both byte orders).
+        Returns (impl, model thunk) or None when the case has none / the class cannot be built as documented."""
+        reads = case.get("reads") or []
+        if not reads:
+            return None
+        try:
+            from pewlib.io.imzml import Spectrum
+            sp = Spectrum((1, 1), None, {str(i): r["off"] for i, r in enumerate(reads)},
+                          {str(i): r["len"] for i, r in enumerate(reads)})
+            getter = sp.get_binary_data
+        except (ImportError, AttributeError, TypeError):
+            return None
+        impl = []
+        for i, r in enumerate(reads):
+            o = "<" if r["order"] == "little" else ">"
+            dt = np.dtype(r["dt"]) if r["dt"] == "u1" else np.dtype(o + r["dt"])
+            try:
+                arr = getter(str(i), dt, path.with_suffix(".ibd"))
+            except TypeError:
+                return None
+            except Exception:  # np.frombuffer: ValueError
+                impl.append({"raises": True})
+                continue
+            arr = np.asarray(arr)
+            bits = arr.view(np.dtype("u1") if r["dt"] == "u1" else np.dtype(o + "u" + r["dt"][1:]))
+            vals = [None if (arr.dtype.kind == "f" and not np.isfinite(v)) else str(F(float(v)) if arr.dtype.kind == "f" else int(v))
+                    for v in arr]
+            impl.append({"bits": [int(b) for b in bits], "values": vals})
+
+        def model(ctx):
+            out = []
+            for r in reads:
+                rep = ctx.driver.call("c05.read", ibd=ibd.hex(), dtype=r["dt"], order=r["order"], off=r["off"], len=r["len"])
+                if rep["bits"] is None:
+                    out.append({"raises": True})
+                elif rep["pointwise"] != rep["bits"]:
+                    out.append({"pointwise-formula-differs": True})
+                else:
+                    out.append({"bits": [int(b) for b in rep["bits"]], "values": [qs(v) for v in rep["values"]]})
+            return out
+
+        return impl, model
 
     @staticmethod
     def binned_matches_model(idata, mdata, sdata, dense, tol):
@@ -518,15 +786,49 @@ class C05(Prop):
             return inf.get(a, 0) <= inf.get(b, 0) if (a in inf and b in inf) else (a == "-inf" or b == "inf")
         return F(a) <= F(b)
 
-    def features(self, case, rep, brep, dspecs):
+    def features(self, case, rep, brep, dspecs, hyp, did_reads, did_dict):
         f = set()
         specs = case["spectra"]
         edges = [core.unrat(e) for e in rep["edges"]]
         wins = list(zip(edges[::2], edges[1::2]))
-        X, Y = rep["size"]
-        f.add(f"img:{'1x1' if (X, Y) == (1, 1) else 'line' if 1 in (X, Y) else 'grid'}")
-        if len(specs) < X * Y:
-            f.add("sparse-pixels")
+        off = set()
+        if rep["extract_model"] is None:
+            off.add("off:model-raises")
+        else:
+            Y, X = rep["extract_model"]["shape"]
+            f.add(f"img:{'1x1' if (X, Y) == (1, 1) else 'line' if 1 in (X, Y) else 'grid'}")
+            if len(specs) < X * Y:
+                f.add("sparse-pixels")
+            if 0 in (X, Y):
+                off.add("off:empty-image")
+        if not hyp:
+            pos = [(s["x"], s["y"]) for s in specs]
+            if any(0 in p for p in pos):
+                off.add("off:position-0-wraps-to-last")
+            if any(min(p) < 0 for p in pos):
+                off.add("off:negative-position")
+            if len(set(pos)) < len(pos):
+                off.add("off:position-recorded-twice")
+            if case["size"] is not None and any(p[0] > case["size"][0] or p[1] > case["size"][1] for p in pos):
+                off.add("off:position-beyond-size")
+            if case["size"] is not None and min(case["size"]) < 0:
+                off.add("off:negative-size")
+            if any(v for row in (rep["aliased"] or []) for v in row):
+                off.add("off:two-positions-one-pixel-value-not-compared")
+            f.add("outside-the-quantifier")
+        if did_reads:
+            f.add("direct-read")
+            for r in case["reads"]:
+                w = int(r["dt"][1:])
+                f.add(f"read:{r['dt']}")
+                if r["order"] == "big":
+                    f.add("read:big-endian")
+                if r["len"] % w:
+                    off.add("read:length-not-multiple")
+                if r.get("past"):
+                    off.add("read:" + r["past"])
+        if did_dict:
+            f.add("dict-observed")
         if not specs:
             f.add("no-spectra")
         if case["size"] is None:
@@ -586,15 +888,16 @@ class C05(Prop):
                         nontriv.add("window-has-first-peak")
                     if inside[-1] == mz[-1]:
                         nontriv.add("window-has-last-peak")
-        if brep is not None:
+        if brep is not None and hyp and brep["dense"] is not None and brep["model"] is not None:
             flat = [d for row in brep["dense"] for d in row if d is not None]
             if any(flat):
                 nontriv.add("bins-dense-pixel")
             if not all(flat):
                 nontriv.add("bins-pixel-with-empty-bin")
-            f.add("bins:%d" % min(len(brep["bins_model"]), 5))
+            f.add("bins:%d" % min(len(brep["model"]["bins"]), 5))
         if {"sparse-pixels", "size-absent", "no-spectra"} & f:
             nontriv.add("placement")
+        nontriv |= off
         return (f | nontriv) if nontriv else []
 
     # ------------------------------------------------------------------ known finding
@@ -632,6 +935,12 @@ class C05(Prop):
                 yield {**case, "spectra": sp[:i] + [{**s, "tic": None}] + sp[i + 1:]}
         if case["binw"] is not None:
             yield {**case, "binw": None}
+        rd = case.get("reads") or []
+        if rd:
+            yield {**case, "reads": []}
+            for i in range(len(rd)):
+                if len(rd) > 1:
+                    yield {**case, "reads": rd[:i] + rd[i + 1:]}
         if case["pad"] is not None:
             yield {**case, "pad": None}
         if case["ifirst"]:
